@@ -43,6 +43,9 @@ def instances(tier):
         out.append({"kind": "matcher", "gen": g})
         out.append({"kind": "outage", "gen": g})
         out.append({"kind": "second_session", "gen": g})
+    # an AirTouch 5 without zones (the console echoes the zone requests): the heartbeat runs there as well
+    out.append({"kind": "api", "gen": 5, "periods": n, "silent_from": 0, "zero_zones": True})
+    out.append({"kind": "api", "gen": 5, "periods": n, "silent_from": n + 1, "zero_zones": True})
     return out
 
 
@@ -113,6 +116,13 @@ def run(ctx, p):
         else:
             delays.append(ctx.real(f"d{k}", 0, 45.0 if api_level else 4.5))
     inst = Installation.simple(g.n, n_acs=1, zones_per_ac=1)
+    if p.get("zero_zones"):
+        from ref import at5 as r5
+        inst = Installation(5)
+        inst.acs.append({"number": 0, "name": "AC0", "start": 0, "count": 0, "mode_bits": 0x1F, "fan_bits": 0xFF, "limits": (16, 30, 17, 31)})
+        inst.ac_status[0] = r5.build_ac_status(0, 1, 4, 2, 120, 0, 0, 0, 0, 740, 0)
+        inst.timers[0] = (1, 0, 0, 1, 0, 0)
+        inst.zero_zone_echo = True
     rig = ApiRig(ctx, g, inst) if api_level else Rig(ctx, g)
     with rig:
         con = rig.console if api_level else Console(rig, inst)
